@@ -2,7 +2,11 @@
 
 package sim
 
-import "github.com/glowlabs-org/gca-backend/glow"
+import (
+	"time"
+
+	"github.com/glowlabs-org/gca-backend/glow"
+)
 
 // T flavour: the repo's own test constants, manual protocol clock.
 const flavourName = "T"
@@ -15,6 +19,7 @@ func flavourInit() {
 	// clock; pin it to the bubble epoch so that runs are reproducible.
 	glow.GenesisTime = BubbleEpoch
 	glow.SetCurrentTimeslot(0)
+	MaxRunLife = 112 * time.Second
 }
 
 // SetSlot moves the protocol clock.
